@@ -39,13 +39,19 @@ func (cm *ConfigManager) UpdateChainState(tx UpdateStateTx, reverted []chain.Rev
 	}
 
 	for _, cru := range reverted {
-		if cru.State.Index == lastAnnouncement.Index {
+		// cru.State is the state after the block was reverted, the
+		// announcement was confirmed in the reverted block itself
+		revertedIndex := types.ChainIndex{
+			ID:     cru.Block.ID(),
+			Height: cru.State.Index.Height + 1,
+		}
+		if revertedIndex == lastAnnouncement.Index {
 			if err := tx.RevertLastAnnouncement(); err != nil {
 				return fmt.Errorf("failed to revert last announcement: %w", err)
 			}
 		}
 
-		if cru.State.Index == v2AnnouncementIndex {
+		if revertedIndex == v2AnnouncementIndex {
 			if err := tx.RevertLastV2Announcement(); err != nil {
 				return fmt.Errorf("failed to revert last v2 announcement: %w", err)
 			}
